@@ -1,1 +1,79 @@
-From HV Require Import Dao.LedgerModel.
+(** Property C12 — UC DAO ledger: shares always add up to the pooled funds.
+    This file only states the property theorems and closes each with a lemma of
+    Dao/LedgerProofs.v; [Print Assumptions] follows every theorem.
+    [step allowed true] is the model of the message server of /repo after the
+    "fix:" commit (debit before credit); [step allowed false] is the pinned order. *)
+From Coq Require Import ZArith List.
+From stdpp Require Import gmap.
+From HV Require Import Dao.LedgerModel Dao.LedgerProofs.
+Local Open Scope Z_scope.
+
+(** For every history of messages (any accounts, sender = recipient included,
+    any ratios and amounts, valid or malformed), for every denomination: the sum
+    of all holders' balances = the recorded total = the module account's coins;
+    the holder index lists exactly the accounts with a non-zero balance; no
+    balance is negative. *)
+Theorem C12_ledger_invariant_all_histories :
+  forall (allowed : N -> bool) (ops : list op),
+    Inv (run allowed true ops init).
+Proof. intros allowed ops. exact (run_inv allowed ops init inv_init). Qed.
+Print Assumptions C12_ledger_invariant_all_histories.
+
+(** Funding credits the depositor with exactly what was deposited, takes exactly
+    that from the depositor's bank balance, adds it to the total and to the
+    module account, and touches nobody else. *)
+Theorem C12_fund_exact :
+  forall allowed s a cs s', step allowed true s (Fund a cs) = (s', OK) ->
+    (forall a' d, zget (coins_of (bal s') a') d
+                  = zget (coins_of (bal s) a') d + (if decide (a = a') then lsum cs d else 0)) /\
+    (forall a' d, zget (coins_of (bank s') a') d
+                  = zget (coins_of (bank s) a') d - (if decide (a = a') then lsum cs d else 0)) /\
+    (forall d, zget (total s') d = zget (total s) d + lsum cs d) /\
+    (forall d, zget (modbal s') d = zget (modbal s) d + lsum cs d) /\
+    (forall d, 0 <= lsum cs d) /\
+    (forall d, lsum cs d <> 0 -> allowed d = true).
+Proof. exact fund_exact. Qed.
+Print Assumptions C12_fund_exact.
+
+(** An ownership transfer moves exactly the stated amount from the signer's own
+    balance to the recipient (net zero when they are the same account), the
+    amount is within the signer's balance, and nothing else changes: no third
+    account, no total, no bank balance. *)
+Theorem C12_transfer_all_exact :
+  forall allowed s o n s', Inv s -> step allowed true s (TAll o n) = (s', OK) ->
+    moves s s' o n (fun d => zget (coins_of (bal s) o) d).
+Proof. exact transfer_all_exact. Qed.
+Print Assumptions C12_transfer_all_exact.
+
+Theorem C12_transfer_ratio_exact :
+  forall allowed s o n r s', Inv s -> step allowed true s (TRatio o n r) = (s', OK) ->
+    0 < r <= 10 ^ 18 /\ moves s s' o n (fun d => zget (coins_of (bal s) o) d * r / 10 ^ 18).
+Proof. exact transfer_ratio_exact. Qed.
+Print Assumptions C12_transfer_ratio_exact.
+
+Theorem C12_transfer_amount_exact :
+  forall allowed s o n cs s', Inv s -> step allowed true s (TAmt o n cs) = (s', OK) ->
+    moves s s' o n (lsum cs).
+Proof. exact transfer_amount_exact. Qed.
+Print Assumptions C12_transfer_amount_exact.
+
+(** A rejected message changes nothing. *)
+Theorem C12_failed_message_no_effect :
+  forall allowed s o s' r, step allowed true s o = (s', r) -> r <> OK -> s' = s.
+Proof. exact step_fail. Qed.
+Print Assumptions C12_failed_message_no_effect.
+
+(** The order of the pinned tree violated the property for sender = recipient
+    (finding F2, repaired by the "fix:" commit): 1000 funded, 400 "transferred"
+    to oneself leaves shares summing to 600 against a total of 1000. *)
+Theorem C12_pinned_order_refuted :
+  let s := run allowed_h false self_transfer_witness init in
+  dsum (bal s) 0%N = 600 /\ zget (total s) 0%N = 1000.
+Proof. exact transfer_self_refuted. Qed.
+Print Assumptions C12_pinned_order_refuted.
+
+(** ... and only there: for distinct accounts both orders are the same function. *)
+Theorem C12_orders_agree_when_distinct :
+  forall s o n amt, o <> n -> transfer false s o n amt = transfer true s o n amt.
+Proof. exact transfer_order_irrelevant_when_distinct. Qed.
+Print Assumptions C12_orders_agree_when_distinct.
